@@ -415,7 +415,7 @@ def attach_direct(inv, responder):
     return inv
 
 
-def run_overlapping(inv, main_fn, others, responder=None):
+def run_overlapping(inv, main_fn, others, responder=None, with_others=False):
     """Several public calls overlap on ONE inverter object: `main_fn()` starts at once, each `(fn, offset)` of `others`
     after `offset` scheduling steps.  Requests are served one at a time in arrival order (what the protocol lock does), each
     taking one scheduling step.  Exceptions of the other calls are swallowed (they are only the disturbance); returns
@@ -448,15 +448,16 @@ def run_overlapping(inv, main_fn, others, responder=None):
             except Exception as ex:      # judged by the caller
                 out["exc"] = ex
 
-        async def other(fn, offset):
+        async def other(i, fn, offset):
             for _ in range(offset):
                 await asyncio.sleep(0)
             try:
-                await fn()
-            except Exception:
-                pass
+                out["others"][i] = (await fn(), None)
+            except Exception as ex:
+                out["others"][i] = (None, ex)
 
-        await asyncio.gather(main(), *[other(fn, off) for fn, off in others])
+        out["others"] = [None] * len(others)
+        await asyncio.gather(main(), *[other(i, fn, off) for i, (fn, off) in enumerate(others)])
 
     loop = asyncio.new_event_loop()
     try:
@@ -464,6 +465,8 @@ def run_overlapping(inv, main_fn, others, responder=None):
     finally:
         loop.close()
         attach_direct(inv, responder)
+    if with_others:
+        return out.get("result"), out.get("exc"), out.get("others")
     return out.get("result"), out.get("exc")
 
 
